@@ -41,6 +41,7 @@ func auditWriters(c *eng.Ctx) (map[*ssa.Function]bool, *ssa.Function) {
 }
 
 func runC06(c *eng.Ctx, tier string) {
+	defer eng.SetRoot(nil)
 	d := loadDB(c)
 	if d == nil {
 		return
@@ -72,12 +73,13 @@ func runC06(c *eng.Ctx, tier string) {
 
 	// R-C06-1
 	for _, m := range d.methods {
+		eng.SetRoot(m.Fn) // helpers shared by several operations are resolved at their call site in this one
 		action, inTable := tC01[m.Name]
 		if !inTable || m.Caller == nil {
 			continue
 		}
 		if m.Name == "List" {
-			c06List(c, d, m, we)
+			c06List(c, d, m, we, aw)
 			continue
 		}
 		guarded := func(in ssa.Instruction) (bool, string) {
@@ -117,6 +119,44 @@ func runC06(c *eng.Ctx, tier string) {
 	}
 	c.Floor("R-C06-1", 9)
 
+	// a wrapper of package db around WriteEntries hands the failure on: every
+	// rule above treats its error result as the audit write's
+	for _, f := range c.P.PkgFuncs("db") {
+		if _, isChk := d.checkers[f]; isChk || f.Parent() != nil {
+			continue
+		}
+		isMethod := false
+		for _, m := range d.methods {
+			if m.Fn == f {
+				isMethod = true
+			}
+		}
+		if isMethod {
+			continue
+		}
+		eng.Instrs(f, func(in ssa.Instruction) {
+			call, ok := in.(*ssa.Call)
+			if !ok || eng.Callee(&call.Call) != we {
+				return
+			}
+			ei := errResultIndex(f)
+			if ei < 0 {
+				c.Bad("R-C06-2", f, in.Pos(), "audit wrapper "+eng.FName(f), "hands the error of the audit write to its caller", "no error result")
+				return
+			}
+			hit, path := eng.Search(f, call, eng.AssumeErr(saveErr(call), false), nil, func(x ssa.Instruction) bool {
+				r, isR := x.(*ssa.Return)
+				return isR && nonNilAt(eng.RetVals(r)[ei], eng.FactsAt(r)) != eng.Yes && !eng.Same(eng.RetVals(r)[ei], saveErr(call))
+			})
+			c.Check(hit == nil, "R-C06-2", f, in.Pos(), "audit wrapper "+eng.FName(f), "a failed audit write is reported to the wrapper's caller (non-nil error)", func() string {
+				if hit == nil {
+					return ""
+				}
+				return "a return may report success after the failed write: " + c.P.PathStr(path)
+			}())
+		})
+	}
+
 	// R-C06-2 / R-C06-3 / R-C06-5 on each logging helper
 	var lfs []*ssa.Function
 	for f := range logging {
@@ -129,6 +169,7 @@ func runC06(c *eng.Ctx, tier string) {
 
 	// R-C06-3 refusal branches reach the helper
 	for _, m := range d.methods {
+		eng.SetRoot(m.Fn) // helpers shared by several operations are resolved at their call site in this one
 		if m.Name == "List" || m.Caller == nil {
 			continue
 		}
@@ -165,13 +206,14 @@ func runC06(c *eng.Ctx, tier string) {
 	// R-C06-4 unchanged conditional get writes nothing
 	n4 := 0
 	for _, m := range d.methods {
+		eng.SetRoot(m.Fn) // helpers shared by several operations are resolved at their call site in this one
 		for _, r := range eng.Returns(m.Fn) {
 			ei := errResultIndex(m.Fn)
 			if ei < 0 {
 				continue
 			}
 			rv := eng.RetVals(r)
-			if !eng.IsGlobalLoad(rv[ei], "types/api", "ErrValueNotChanged") {
+			if !mayBeNotChanged(m.Fn, rv[ei], 0) {
 				continue
 			}
 			n4++
@@ -198,6 +240,7 @@ func runC06(c *eng.Ctx, tier string) {
 
 	// R-C06-5 version argument
 	for _, m := range d.methods {
+		eng.SetRoot(m.Fn) // helpers shared by several operations are resolved at their call site in this one
 		if m.Version == nil || m.Name == "GetConditional" { // tabled: oldVersion is the caller's cached version, not the version accessed
 			continue
 		}
@@ -282,11 +325,16 @@ func nameOf(p *ssa.Parameter) string {
 }
 
 // c06List: the single List entry precedes the listing, fail-closed.
-func c06List(c *eng.Ctx, d *dbInfo, m *dbMethod, we *ssa.Function) {
+func c06List(c *eng.Ctx, d *dbInfo, m *dbMethod, we *ssa.Function, aw map[*ssa.Function]bool) {
 	var wcall *ssa.Call
+	// the audit write: WriteEntries itself or a helper of the package wrapping it
 	eng.Instrs(m.Fn, func(in ssa.Instruction) {
-		if call, ok := in.(*ssa.Call); ok && eng.Callee(&call.Call) == we {
-			wcall = call
+		if call, ok := in.(*ssa.Call); ok {
+			if cal := eng.Callee(&call.Call); cal != nil && (cal == we || (aw[eng.Unwrap(cal)] && eng.IsHelper(m.Fn, cal))) {
+				if _, isChk := d.checkers[cal]; !isChk {
+					wcall = call
+				}
+			}
 		}
 	})
 	if wcall == nil {
@@ -296,7 +344,7 @@ func c06List(c *eng.Ctx, d *dbInfo, m *dbMethod, we *ssa.Function) {
 	for _, s := range d.sites(m.Fn) {
 		ok := false
 		for _, cond := range factsDeep(s.In) {
-			if v, isNil, isE := cond.ErrCheck(); isE && isNil && eng.Same(v, wcall) {
+			if v, isNil, isE := cond.ErrCheck(); isE && isNil && eng.Same(v, saveErr(wcall)) {
 				ok = true
 			}
 		}
@@ -306,7 +354,7 @@ func c06List(c *eng.Ctx, d *dbInfo, m *dbMethod, we *ssa.Function) {
 	bad := false
 	for _, r := range eng.Returns(m.Fn) {
 		for _, cond := range eng.FactsAt(r) {
-			if v, isNil, isE := cond.ErrCheck(); isE && !isNil && eng.Same(v, wcall) {
+			if v, isNil, isE := cond.ErrCheck(); isE && !isNil && eng.Same(v, saveErr(wcall)) {
 				rv := eng.RetVals(r)
 				ei := errResultIndex(m.Fn)
 				if nonNilAt(rv[ei], eng.FactsAt(r)) != eng.Yes || !eng.IsNilConst(eng.Origin(rv[0])) {
@@ -320,13 +368,12 @@ func c06List(c *eng.Ctx, d *dbInfo, m *dbMethod, we *ssa.Function) {
 		c.Ok("R-C06-2", m.Fn, wcall.Pos(), "List: failed audit write", "returns (nil, non-nil error)")
 	}
 	// record: Principal = caller.Principal, Action = info, Authorized true
-	pa := eng.Path{Blocks: []*ssa.BasicBlock{wcall.Block()}}
-	elems, _ := pa.SliceElems(wcall.Call.Args[1])
+	elems := auditEntriesOf(wcall, we)
 	if len(elems) == 1 {
-		fields, _, ok := eng.LiteralFields(eng.Origin(elems[0]))
+		fields, mapv, ok := eng.LiteralThroughHelper(elems[0])
 		if ok {
 			fr, base, isF := eng.LoadedField(fields["Principal"])
-			c.Check(isF && fr.Is("db", "Caller", "Principal") && isParam(base, m.Caller), "R-C06-5", m.Fn, wcall.Pos(), "List entry Principal", "the caller's principal", "Principal = "+eng.ValStr(fields["Principal"]))
+			c.Check(isF && fr.Is("db", "Caller", "Principal") && (isParam(base, m.Caller) || isParam(mapv(base), m.Caller)), "R-C06-5", m.Fn, wcall.Pos(), "List entry Principal", "the caller's principal", "Principal = "+eng.ValStr(fields["Principal"]))
 			act, _ := constAction(fields["Action"])
 			c.Check(act == "info", "R-C06-5", m.Fn, wcall.Pos(), "List entry Action", "info", "Action = "+eng.ValStr(fields["Action"]))
 		}
@@ -396,11 +443,10 @@ func c06Helper(c *eng.Ctx, d *dbInfo, f *ssa.Function, sig checkerSig, we *ssa.F
 	}
 	// R-C06-5: entry fields
 	for _, w := range wcalls {
-		if eng.Callee(&w.Call) != we {
+		elems := auditEntriesOf(w, we)
+		if elems == nil {
 			continue
 		}
-		pa := eng.Path{Blocks: []*ssa.BasicBlock{w.Block()}}
-		elems, _ := pa.SliceElems(w.Call.Args[1])
 		if len(elems) != 1 {
 			c.Undecided("R-C06-5", f, w.Pos(), eng.CallStr(&w.Call), "cannot identify the single entry written")
 			continue
@@ -737,4 +783,53 @@ func c06Principal(c *eng.Ctx) {
 		c.Check(ok, "R-C06-8", f, a.In.Pos(), "Principal."+a.Field.Name+" = "+eng.ValStr(st.Val), want, "")
 	}
 	c.Floor("R-C06-8", 5)
+}
+
+
+// auditEntriesOf returns the entries handed to the audit log by call: the
+// variadic arguments of WriteEntries, or the *audit.Entry argument(s) of a
+// wrapper of the package around it.
+func auditEntriesOf(call *ssa.Call, we *ssa.Function) []ssa.Value {
+	if eng.Callee(&call.Call) == we {
+		pa := eng.Path{Blocks: []*ssa.BasicBlock{call.Block()}}
+		elems, _ := pa.SliceElems(call.Call.Args[len(call.Call.Args)-1])
+		return elems
+	}
+	var out []ssa.Value
+	for _, a := range call.Call.Args {
+		if pt, ok := a.Type().(*types.Pointer); ok && eng.IsNamed(pt.Elem(), "audit", "Entry") {
+			out = append(out, a)
+		}
+	}
+	return out
+}
+
+
+// mayBeNotChanged: v is api.ErrValueNotChanged, or the error result of a
+// helper of the operation that can return it.
+func mayBeNotChanged(fn *ssa.Function, v ssa.Value, depth int) bool {
+	if eng.IsGlobalLoad(v, "types/api", "ErrValueNotChanged") {
+		return true
+	}
+	if depth > 2 {
+		return false
+	}
+	call, _ := eng.TupleCall(v)
+	if call == nil {
+		return false
+	}
+	h := eng.Callee(&call.Call)
+	if !eng.IsHelper(fn, h) {
+		return false
+	}
+	ei := errResultIndex(h)
+	if ei < 0 {
+		return false
+	}
+	for _, r := range eng.Returns(h) {
+		if mayBeNotChanged(h, eng.RetVals(r)[ei], depth+1) {
+			return true
+		}
+	}
+	return false
 }
